@@ -57,6 +57,8 @@ pub struct CaseOut {
     pub nontrivial: bool,
     pub outcome: Outcome,
     pub desc: String,
+    /// number of evaluations this record stands for (aggregated sweeps)
+    pub count: u64,
 }
 
 impl CaseOut {
@@ -66,6 +68,7 @@ impl CaseOut {
             nontrivial,
             outcome: Outcome::Held,
             desc: desc.into(),
+            count: 1,
         }
     }
     pub fn viol(
@@ -82,6 +85,7 @@ impl CaseOut {
                 detail: detail.into(),
             },
             desc: desc.into(),
+            count: 1,
         }
     }
     pub fn skip(cell: impl Into<String>, why: impl Into<String>, desc: impl Into<String>) -> Self {
@@ -90,7 +94,12 @@ impl CaseOut {
             nontrivial: false,
             outcome: Outcome::Skip(why.into()),
             desc: desc.into(),
+            count: 1,
         }
+    }
+    pub fn times(mut self, n: u64) -> Self {
+        self.count = n;
+        self
     }
 }
 
@@ -215,14 +224,14 @@ impl Shard {
     }
 
     pub fn record(&mut self, idx: u64, c: CaseOut) {
-        self.evaluations += 1;
+        self.evaluations += c.count;
         let e = self.cells.entry(c.cell.clone()).or_insert((0, 0));
-        e.0 += 1;
+        e.0 += c.count;
         match &c.outcome {
             Outcome::Held => {
-                self.held += 1;
+                self.held += c.count;
                 if c.nontrivial {
-                    e.1 += 1;
+                    e.1 += c.count;
                 }
                 if self.samples.len() < 6 {
                     self.samples.push(format!("#{idx} [{}] {}", c.cell, c.desc));
@@ -232,15 +241,16 @@ impl Shard {
                 }
             }
             Outcome::Skip(why) => {
-                self.skipped += 1;
-                *self.skip_reasons.entry(why.clone()).or_insert(0) += 1;
+                self.skipped += c.count;
+                *self.skip_reasons.entry(why.clone()).or_insert(0) += c.count;
             }
             Outcome::Violation { sig, detail } => {
-                self.violations += 1;
+                self.violations += c.count;
                 let n = self.sigs.entry(sig.clone()).or_insert(0);
-                *n += 1;
+                let first = *n == 0;
+                *n += c.count;
                 // print the first few per signature in full
-                if *n <= 3 && self.printed_violations < 400 {
+                if (first || *n <= 3) && self.printed_violations < 400 {
                     self.printed_violations += 1;
                     let line = Obj::new()
                         .s("t", "violation")
